@@ -298,6 +298,17 @@ fn op_values() -> Vec<Value> {
     progs.iter().filter_map(|p| run_uiua(&format!("{EXP}{p}")).ok().and_then(|s| s.into_iter().last())).collect()
 }
 
+/// arrays at the boundaries of every width class of `binary`
+fn boundary_values() -> Vec<Value> {
+    let rows: [&[f64]; 30] = [
+        &[255.0], &[256.0], &[0.0, 255.0], &[65535.0], &[65536.0], &[4294967295.0], &[4294967296.0], &[18446744073709551616.0], &[18446744073709549568.0],
+        &[36893488147419103232.0], &[-128.0], &[-129.0], &[127.0, -1.0], &[128.0, -1.0], &[32767.0, -1.0], &[32768.0, -1.0], &[-32768.0], &[-32769.0],
+        &[2147483647.0, -1.0], &[2147483648.0, -1.0], &[-2147483648.0], &[-2147483649.0], &[9223372036854775808.0, -1.0], &[-9223372036854775808.0],
+        &[-9223372036854777856.0], &[16777217.0, 0.5], &[0.5], &[0.1], &[-0.0], &[f64::NAN, 1.0],
+    ];
+    rows.iter().map(|d| num(&[d.len()], d)).collect()
+}
+
 fn nest(mut v: Value, n: usize) -> Value {
     for _ in 0..n {
         v = boxes(&[], vec![v]);
@@ -365,6 +376,7 @@ fn val_class(v: &Value) -> String {
 
 fn search_binary(r: &mut Rng, n: usize, o: &mut Out) {
     let mut vals = op_values();
+    vals.extend(boundary_values());
     for d in [1usize, 5, 30, 31, 32, 33, 34, 40] {
         vals.push(nest(num(&[2], &[1.0, 2.5]), d));
     }
@@ -908,6 +920,12 @@ fn tie(r: &mut Rng, n: usize) {
         let back = run1("⌝⊥", &[v2.clone(), num(&[], &[base as f64])]);
         emit("antibase", &[("b", base.to_string()), ("sh", jshape(&v2)), ("d", jints(&ints_of(&v2).unwrap())), ("out", res_ints(&back))]);
     }
+    // fixed cases: exact powers of the base (pins the row length the implementation computes)
+    for (base, x) in [(3i64, 243i128), (3, 242), (100, 1000000), (12, 35831808), (10, 1000), (2, 1024)] {
+        let v = num(&[], &[x as f64]);
+        let out = run1("⊥", &[v.clone(), num(&[], &[base as f64])]);
+        emit("base", &[("b", base.to_string()), ("sh", jshape(&v)), ("d", jints(&[x])), ("out", res_ints(&out))]);
+    }
     // ---- bytes formats (integers; sides: 0 native, 1 little, 2 big)
     let fmts = ["u8", "i8", "u16", "i16", "u32", "i32", "u64", "i64", "u128", "i128"];
     for i in 0..n {
@@ -943,6 +961,7 @@ fn tie(r: &mut Rng, n: usize) {
     }
     // ---- binary: encoder bytes for generated values, decoder on produced / malformed bytes
     let mut vals = op_values();
+    vals.extend(boundary_values());
     for d in [1usize, 3, 31, 32, 33] {
         vals.push(nest(num(&[2], &[1.0, 2.5]), d));
     }
